@@ -1,16 +1,16 @@
 SPECIFICATION Spec
 CONSTANTS
-  MaxH = 3
+  MaxH = 2
   MaxRestarts = 1
-  FullNode = TRUE
+  FullNode = FALSE
   Cap = 2
   Weaken = "none"
   GapFix = FALSE
   CertRounds = {1}
   Direct = FALSE
-  MidCrash = TRUE
+  MidCrash = FALSE
   Timeouts = FALSE
-  MaxWriteFaults = 0
+  MaxWriteFaults = 1
 INVARIANT ContainerOK
 INVARIANT TopIsHeight
 INVARIANT StorageShape
